@@ -16,7 +16,7 @@ impl Prop for C04 {
         "C04"
     }
     fn rule(&self) -> String {
-        "Same execution sources as C02 (generated programs, e2e snippets, examples), restricted to functions \
+        "Same execution sources as C02 (generated programs, e2e snippets, examples) plus builtin-loop programs (gens/builtin_loops: Pedersen / Poseidon / Bitwise / EcOp / circuit AddMod-MulMod / Blake2s / dictionary / wide arithmetic operations inside while loops, recursion, one- and two-armed conditionals, early exits and non-inlined helpers), restricted to functions \
          that take the gas builtin and runs with an explicit budget; every run (honest budget 10^12 and 4 \
          swept budgets between the entry cost and 1.5x the consumption, so that withdraw_gas fails at \
          different points) is judged by `100*steps + 70*rc + 56*rc96 + sum price(b)*uses(b) <= (g - gas_left) \
@@ -46,9 +46,15 @@ impl Prop for C04 {
             let cfg = if ch.bool() { FrontCfg::default_cfg() } else { FrontCfg::generate(ch) };
             let solver_choice = ch.below(6);
             let sweep_seed: Vec<u32> = (0..40).map(|_| ch.next()).collect();
-            let case = execs::pick_case(ch, &snippets, 8, 5);
+            let case = execs::pick_case_bl(ch, &snippets, 8, 5, 3);
             let meta = if case.source.len() < 2500 && solver_choice % 2 == 0 { MetaCfg { linear_gas: false, linear_ap: true } } else { MetaCfg::linear() };
             let src_hash = hash_str(&case.source);
+            if case.origin.starts_with("builtin-loops") {
+                cc.stats().count("builtin_loop_programs");
+                if case.origin.contains("circuit") {
+                    cc.stats().count("builtin_loop_programs_with_circuit");
+                }
+            }
             let mut sampled = false;
             execs::drive(cc, &mut Choices::new(sweep_seed.clone()), &mut db, &case, &cfg, meta, 4, &mut |cc, _c, f, args, gas, r| {
                 let (Ok(e), Some(g)) = (r, gas) else { return None };
